@@ -81,7 +81,7 @@ def gen_cases(tier, scratch):
         c = {"id": f"{d['fam']}{k}", "fam": d["fam"], "sid": sid_of(res, names), "gaps": d["gaps"],
              "via": "mapping" if k % 5 else "adapter",
              # presentation of the entries (not part of the enumerated domain; varied deterministically)
-             "samode": "table" if (k // 2) % 2 else "none",
+             "samode": "clash" if k % 8 == 5 else "table" if (k // 2) % 2 else "none",
              "refmode": "mixed" if k % 7 == 3 else ("both", "auth", "both" if icodes else "label")[k % 3],
              "dom": d}
         c["entries"] = [{"a": e[0], "b": e[1], "lw": e[2]} for e in d["entries"]]
@@ -249,9 +249,13 @@ def structure_of(st):
 
 
 def saenger_for(st, e, samode):
-    if samode != "table" or not e["a"] or not e["b"]:
+    if samode not in ("table", "clash") or not e["a"] or not e["b"]:
         return ""
     key = (st["res"][e["a"] - 1]["letter"].upper() + st["res"][e["b"] - 1]["letter"].upper(), e["lw"])
+    if samode == "clash":
+        # two classifications that disagree (lists merged from several tools): a cWW pair of complementary letters
+        # labelled with a non-canonical Saenger class - the Saenger class, where given, decides
+        return "XXIV" if SAENGER.get(key, "") in ("XIX", "XX", "XXVIII") else SAENGER.get(key, "")
     return SAENGER.get(key, "")
 
 
